@@ -85,13 +85,21 @@ Fixpoint conv_keys {A} (data : list (rawkey * A)) : option (list (Z * A)) :=
       end
   end.
 
-(* _union_intervals *)
+(* _union_intervals, as repaired ("TsGroup of exactly two members used the pairwise union kernel"): one
+   set is returned as it is, two sets or more go through the n-ary kernel, which joins intervals that
+   touch.  [union_supports_orig] is the function as it was: exactly two sets went through the pairwise
+   kernel, which keeps touching intervals apart, and the IntervalSet constructor then trimmed 1 us off
+   the earlier one (erasing it when it was not longer than 1 us). *)
 Definition union_supports (l : list iset) : iset :=
   match l with
   | [] => []
   | [a] => a
-  | [a; b] => mk_iset_pairs (k_union a b)
   | _ => mk_iset_pairs (k_union_n (concat l))
+  end.
+Definition union_supports_orig (l : list iset) : iset :=
+  match l with
+  | [a; b] => mk_iset_pairs (k_union a b)
+  | _ => union_supports l
   end.
 
 Definition map_members (f : member -> member) (es : list entry) : list entry :=
@@ -190,19 +198,23 @@ Definition g_get (g : group) (a b : Z) : option group :=
 (* merge_group, as repaired (commit "merge_group failed on interleaved keys ..."): the concatenated
    metadata rows are sorted by key before they are handed to the constructor.  Checks (all
    ValueError): same metadata columns unless ignored; disjoint keys unless the index is reset; "same"
-   time support unless it is reset, where np.allclose broadcasts an empty support against a
-   one-interval support (vacuously equal).
-   [merge_group_orig] is the function as it was at the pinned commit: with the metadata kept and the
+   time support unless it is reset (as repaired, "merge_group accepted an empty time support against a
+   one-interval support": the shapes are compared first).
+   [merge_group_orig] is the function with the first defect: with the metadata kept and the
    index not reset, the rows were handed over in concatenation order while the constructor sorts the
    keys, and the index comparison in set_info failed (ValueError) unless the concatenated keys were
-   already increasing. *)
+   already increasing.
+   [merge_group_lax] is the function with the second defect: np.allclose alone broadcasts an empty
+   support against a one-interval support, so the two compared as equal ([sup_same_orig]) and the
+   first group's support was installed on every member. *)
 Fixpoint iset_eqb (a b : iset) : bool :=
   match a, b with
   | [], [] => true
   | (s, e) :: ar, (s', e') :: br => (s =? s') && (e =? e') && iset_eqb ar br
   | _, _ => false
   end.
-Definition sup_same (a b : iset) : bool :=
+Definition sup_same (a b : iset) : bool := iset_eqb a b.
+Definition sup_same_orig (a b : iset) : bool :=
   iset_eqb a b || match a, b with [], [_] => true | [_], [] => true | _, _ => false end.
 
 Fixpoint incrb (l : list Z) : bool :=
@@ -223,23 +235,24 @@ Definition renumber (es : list entry) : list entry :=
 Definition merge_items (gs : list group) (reset_index : bool) : list entry :=
   if reset_index then renumber (flat_map g_entries gs) else flat_map g_entries gs.
 
-(* [strict] = the behaviour before the repair *)
-Definition merge_group_gen (strict : bool) (gs : list group) (reset_index reset_sup ignore_meta : bool) : option group :=
+(* [strict] = the behaviour before the first repair, [lax] = the behaviour before the second *)
+Definition merge_group_gen (strict lax : bool) (gs : list group) (reset_index reset_sup ignore_meta : bool) : option group :=
   match gs with
   | [] => None
   | [g] => Some g
   | g1 :: rest =>
       if (ignore_meta || forallb (fun g => Bool.eqb (g_hastag g) (g_hastag g1)) rest)
          && (reset_index || disjoint_keys (g_keys g1) rest)
-         && (reset_sup || forallb (fun g => sup_same (g_sup g1) (g_sup g)) rest)
+         && (reset_sup || forallb (fun g => (if lax then sup_same_orig else sup_same) (g_sup g1) (g_sup g)) rest)
       then
         if strict && negb ignore_meta && negb (incrb (map e_key (merge_items gs reset_index))) then None
         else regroup (merge_items gs reset_index) (if reset_sup then None else Some (g_sup g1)) false
                      (if ignore_meta then false else g_hastag g1)
       else None
   end.
-Definition merge_group := merge_group_gen false.
-Definition merge_group_orig := merge_group_gen true.
+Definition merge_group := merge_group_gen false false.
+Definition merge_group_orig := merge_group_gen true false.
+Definition merge_group_lax := merge_group_gen false true.
 
 (* ------------------------------------------------------------------ *)
 (* to_tsd / to_tsgroup.  A Tsd here: rows (time, value = key) + support *)
